@@ -426,6 +426,8 @@ class Interp(MiniEval):
             key = f'{base.name}.{attr}'
             if key in self.stubs:
                 return self.stubs[key]
+            if key in EXTERNAL and EXTERNAL[key] is not None:
+                return EXTERNAL[key]
             if base.name in self.src.mods:
                 try:
                     return self.lookup_module_name(self.src.mods[base.name], attr)
@@ -732,7 +734,13 @@ class Interp(MiniEval):
             else:
                 base = self.ev(e.func.value)
                 if isinstance(base, (str, dict, list, tuple, set, frozenset)) and e.func.attr in miniev.SAFE_METHODS:
-                    return getattr(base, e.func.attr)(*args, **kwargs)
+                    concrete = not any(isinstance(a_, (Obj, Sym)) for a_ in list(args) + list(kwargs.values()))
+                    try:
+                        return getattr(base, e.func.attr)(*args, **kwargs)
+                    except (ValueError, KeyError, IndexError) as x:
+                        if concrete:
+                            raise Raised(type(x).__name__)      # '{'.format(), [].index(x), {}.pop(k), 'a'.split('') on concrete operands
+                        raise
                 callee = self.getattr(base, e.func.attr, text)
         else:
             callee = self.ev(e.func)
@@ -1163,6 +1171,8 @@ class Interp(MiniEval):
         return PkgFunc(m_, fn_, mq.split('.')[1], bound=o)
 
     def iterate(self, v):
+        if hasattr(v, '__next__'):
+            return v             # an iterator is drawn from lazily (other code may draw from it between two steps of the loop)
         f = self.dunder(v, '__iter__')
         if f is not None:
             return list(self.apply(f, [], {}))
